@@ -227,6 +227,9 @@ def str_eq(a, b):
     return a == b
 
 
+APPLICATIONS = []      # (opaque fn, args) applied since the last reset (one path of the executor)
+
+
 class OpaqueFn(object):
     """A spec function hidden behind an uninterpreted symbol (opaque / reveal discipline).
 
@@ -250,6 +253,7 @@ class OpaqueFn(object):
         if z3 is None or not _anysym(args):
             return self.definition(*args)
         la = [lift(a) for a in args]
+        APPLICATIONS.append((self, tuple(args)))
         return self._decl(la)(*la)
 
     def reveal(self, *args):
